@@ -171,15 +171,30 @@ func curveStage(r *ev.Run, full bool) {
 				lens = append(lens, s.Length())
 				total += s.Length()
 			}
+			if total == 0 {
+				return // a polyline of no length has no "fraction of the way along"
+			}
 			sc := model2d.NewSegmentCurve(segs)
+			ts := make([]float64, 0, 32)
 			for k := 0; k <= 20; k++ {
-				t := float64(k) / 20
+				ts = append(ts, float64(k)/20)
+			}
+			// the parameters of the vertices themselves (where the look-up changes segment), and just beside them
+			cum := 0.0
+			for _, ln := range lens {
+				cum += ln
+				ts = append(ts, cum/total, math.Min(1, cum/total*(1+1e-12)), cum/total*(1-1e-12))
+			}
+			for _, t := range ts {
 				r.Eval(1)
-				// reference: walk the arclength
+				// reference: walk the arclength; a repeated vertex (segment of no length) is passed over
 				l := t * total
-				var want model2d.Coord
+				want := segs[len(segs)-1][1]
 				for i, s := range segs {
-					if l <= lens[i] || i == len(segs)-1 {
+					if lens[i] == 0 {
+						continue
+					}
+					if l <= lens[i] {
 						want = s[0].Add(s[1].Sub(s[0]).Scale(l / lens[i]))
 						break
 					}
@@ -201,12 +216,7 @@ func curveStage(r *ev.Run, full bool) {
 			return
 		}
 		for i := range pa {
-			if len(cur) > 0 && cur[len(cur)-1] == i {
-				continue
-			}
-			if len(cur) > 1 && cur[len(cur)-2] == i {
-				continue
-			}
+			// a vertex may repeat (a segment of no length) and the polyline may double back on itself
 			rec(append(append([]int{}, cur...), i))
 		}
 	}
